@@ -532,3 +532,272 @@ Definition t81_emit_arith (ch : choices) (im : image) : option (list Z) :=
   | Some segs => Some (emit_stream {| st_segs := segs; st_eoi_fill := ch_eoi_fill ch |})
   | None => None
   end.
+
+(* ============================ G.1.3: progressive DCT, arithmetic coding (SOF10) === *)
+(* DC first scan: F.1.4.1 on the point-transformed values (DC >> Al); DC refinement: one
+   decision with the fixed estimate; AC first scan: F.1.4.2 restricted to the band Ss..Se on
+   sign * (|ZZ(k)| >> Al); AC refinement (G.1.3.3): EOB decision only beyond the end-of-block
+   of the previous stage (EOBx), correction decision for already non-zero coefficients,
+   zero / newly-non-zero decision plus fixed-estimate sign for the others.
+   No theorems about this part (model + correspondence). *)
+Definition mag_shift (v al : Z) : Z := if v <? 0 then - ((- v) / 2 ^ al) else v / 2 ^ al.
+
+(* last index in ss..se whose value satisfies p, ss - 1 if none *)
+Definition last_idx (f : Z -> bool) (ss se : Z) : Z :=
+  fold_left (fun acc k => if f k then k else acc) (map (fun i => ss + i) (zrange (se - ss + 1))) (ss - 1).
+
+(* ---- encoder side: decisions of one block in an AC refinement scan *)
+Fixpoint enc_ac_refine (fuel : nat) (tb : Z) (coef : Z -> Z) (al se ke kex k : Z) (inner : bool) : list (Z * bool) :=
+  match fuel with
+  | O => []
+  | S f =>
+    if k >? ke then (if k <=? se then [(ack tb (3 * (k - 1)), true)] else [])
+    else
+      let st := ack tb (3 * (k - 1)) in
+      (if negb inner && (k >? kex) then [(st, false)] else []) ++
+      let v := Z.abs (coef k) / 2 ^ al in
+      if v =? 0 then (st + 1, false) :: enc_ac_refine f tb coef al se ke kex (k + 1) true
+      else if v / 2 =? 0 then (st + 1, true) :: (FIXED, coef k <? 0) :: enc_ac_refine f tb coef al se ke kex (k + 1) false
+      else (st + 2, Z.odd v) :: enc_ac_refine f tb coef al se ke kex (k + 1) false
+  end.
+
+(* all decisions of one block in a scan (ss, se, ah, al); zz = the 64 coefficients (zig-zag) *)
+Definition penc_block (ss se ah al : Z) (cnd : acond) (pred ctx : Z) (zz : list Z) : list (Z * bool) * Z * Z :=
+  let '(tbd, l, u, tba, kx) := cnd in
+  if ss =? 0 then
+    if ah =? 0 then
+      let v := nthZ zz 0 / 2 ^ al in
+      (enc_dc tbd ctx (v - pred), v, dc_class l u (v - pred))
+    else ([(FIXED, Z.testbit (nthZ zz 0) al)], pred, ctx)
+  else
+    if ah =? 0 then
+      (enc_ac_seq tba kx ss false (map (fun i => mag_shift (nthZ zz (ss + i)) al) (zrange (se - ss + 1))), pred, ctx)
+    else
+      let ke := last_idx (fun k => negb (Z.abs (nthZ zz k) / 2 ^ al =? 0)) ss se in
+      let kex := last_idx (fun k => negb (Z.abs (nthZ zz k) / 2 ^ ah =? 0)) ss se in
+      (enc_ac_refine 130 tba (nthZ zz) al se ke kex ss false, pred, ctx).
+
+(* ---- decoder side *)
+Fixpoint dec_ac_refine (fuel : nat) (tb : Z) (m : PM.t Z) (w r c al se kex k : Z) (inner : bool) (q : qdec)
+  : option (PM.t Z * qdec) :=
+  match fuel with
+  | O => None
+  | S f =>
+    if k >? se then (if inner then None else Some (m, q))
+    else
+      let st := ack tb (3 * (k - 1)) in
+      match (if negb inner && (k >? kex) then qm_decode st q else Some (false, q)) with
+      | None => None
+      | Some (true, q1) => Some (m, q1)                       (* EOB *)
+      | Some (false, q1) =>
+        let v := pget m w r c k in
+        if v =? 0 then
+          match qm_decode (st + 1) q1 with
+          | None => None
+          | Some (false, q2) => dec_ac_refine f tb m w r c al se kex (k + 1) true q2
+          | Some (true, q2) =>
+            match qm_decode FIXED q2 with
+            | None => None
+            | Some (sgn, q3) => dec_ac_refine f tb (pset m w r c k (if sgn then - 2 ^ al else 2 ^ al)) w r c al se kex (k + 1) false q3
+            end
+          end
+        else
+          match qm_decode (st + 2) q1 with
+          | None => None
+          | Some (b, q2) =>
+            dec_ac_refine f tb (if b then pset m w r c k (if v <? 0 then v - 2 ^ al else v + 2 ^ al) else m)
+                          w r c al se kex (k + 1) false q2
+          end
+      end
+  end.
+
+Fixpoint set_band (m : PM.t Z) (w r c k al : Z) (vs : list Z) : PM.t Z :=
+  match vs with
+  | [] => m
+  | v :: t => set_band (if v =? 0 then m else pset m w r c k (v * 2 ^ al)) w r c (k + 1) al t
+  end.
+
+Fixpoint padec_blocks (ss se ah al : Z) (cs : list acond) (ws : list Z) (pos : list (nat * Z * Z))
+         (arrs : list (PM.t Z)) (preds ctxs : list Z) (q : qdec) : option (list (PM.t Z)) :=
+  match pos with
+  | [] => Some arrs
+  | (j, r, c) :: t =>
+    let m := nth j arrs (PM.empty Z) in let w := nth j ws 1 in
+    let '(tbd, l, u, tba, kx) := acond_at cs j in
+    if ss =? 0 then
+      if ah =? 0 then
+        match dec_dc qdec qm_decode tbd (nth j ctxs 0) q with
+        | None => None
+        | Some (diff, q1) =>
+          let p := nth j preds 0 + diff in
+          padec_blocks ss se ah al cs ws t (set_nth j (pset m w r c 0 (p * 2 ^ al)) arrs)
+                       (set_nth j p preds) (set_nth j (dc_class l u diff) ctxs) q1
+        end
+      else
+        match qm_decode FIXED q with
+        | None => None
+        | Some (b, q1) =>
+          padec_blocks ss se ah al cs ws t (set_nth j (pset m w r c 0 (pget m w r c 0 + b2z b * 2 ^ al)) arrs) preds ctxs q1
+        end
+    else
+      if ah =? 0 then
+        match dec_ac_seq qdec qm_decode (Z.to_nat (se - ss + 1)) tba kx ss false q with
+        | None => None
+        | Some (vs, q1) => padec_blocks ss se ah al cs ws t (set_nth j (set_band m w r c ss al vs) arrs) preds ctxs q1
+        end
+      else
+        let kex := last_idx (fun k => negb (pget m w r c k =? 0)) ss se in
+        match dec_ac_refine 130 tba m w r c al se kex ss false q with
+        | None => None
+        | Some (m', q1) => padec_blocks ss se ah al cs ws t (set_nth j m' arrs) preds ctxs q1
+        end
+  end.
+
+Fixpoint padec_intervals (ss se ah al : Z) (cs : list acond) (ws : list Z) (ncomp : nat)
+         (ivs : list (list (nat * Z * Z))) (ds : list (list Z)) (arrs : list (PM.t Z)) : option (list (PM.t Z)) :=
+  match ivs, ds with
+  | [], [] => Some arrs
+  | pos :: it, d :: dt =>
+    match padec_blocks ss se ah al cs ws pos arrs (repeat 0 ncomp) (repeat 0 ncomp) (qm_init_dec d) with
+    | Some arrs' => padec_intervals ss se ah al cs ws ncomp it dt arrs'
+    | None => None
+    end
+  | _, _ => None
+  end.
+
+Record pastate := {
+  pa_sof : option (Z * Z * Z * list fcomp);
+  pa_l : list Z; pa_u : list Z; pa_k : list Z; pa_ri : Z;
+  pa_arr : list (PM.t Z)
+}.
+Definition pa0 : pastate :=
+  {| pa_sof := None; pa_l := repeat 0 4; pa_u := repeat 1 4; pa_k := repeat 5 4; pa_ri := 0; pa_arr := [] |}.
+
+Record pascan := { px_info : list (nat * Z * Z * Z * Z); px_conds : list acond; px_ws : list Z;
+                   px_ivs : list (list (nat * Z * Z)); px_arrs : list (PM.t Z); px_g : geom; px_hv : list (Z * Z) }.
+
+Definition pa_setup (st : pastate) (sc : list scomp) : option pascan :=
+  match pa_sof st with
+  | None => None
+  | Some (p, y, x, fc) =>
+    match scan_info fc sc with
+    | None => None
+    | Some info =>
+      let g := geom_of y x fc in
+      let hv := map (fun i : nat * Z * Z * Z * Z => let '(_, h, v, _, _) := i in (h, v)) info in
+      Some {| px_info := info;
+              px_conds := map (fun i : nat * Z * Z * Z * Z => let '(_, _, _, td, ta) := i in
+                                 (td, nthZ (pa_l st) td, nthZ (pa_u st) td, ta, nthZ (pa_k st) ta)) info;
+              px_ws := map (fun q : Z * Z => mcu_cols g * fst q) hv;
+              px_ivs := intervals (pa_ri st * blocks_per_mcu hv) (scan_positions g hv);
+              px_arrs := map (fun i : nat * Z * Z * Z * Z => let '(fi, _, _, _, _) := i in nth fi (pa_arr st) (PM.empty Z)) info;
+              px_g := g; px_hv := hv |}
+    end
+  end.
+
+Definition pa_store (st : pastate) (info : list (nat * Z * Z * Z * Z)) (arrs' : list (PM.t Z)) : pastate :=
+  {| pa_sof := pa_sof st; pa_l := pa_l st; pa_u := pa_u st; pa_k := pa_k st; pa_ri := pa_ri st;
+     pa_arr := fold_left (fun a (ia : (nat * Z * Z * Z * Z) * PM.t Z) => let '((fi, _, _, _, _), m) := ia in set_nth fi m a)
+                         (combine info arrs') (pa_arr st) |}.
+
+Definition pa_step (st : pastate) (s : segment) : option pastate :=
+  match s with
+  | SegDAC tabs =>
+      let a := dac_apply {| as_sof := None; as_l := pa_l st; as_u := pa_u st; as_k := pa_k st; as_ri := 0; as_out := [] |} tabs in
+      Some {| pa_sof := pa_sof st; pa_l := as_l a; pa_u := as_u a; pa_k := as_k a; pa_ri := pa_ri st; pa_arr := pa_arr st |}
+  | SegDRI ri => Some {| pa_sof := pa_sof st; pa_l := pa_l st; pa_u := pa_u st; pa_k := pa_k st; pa_ri := ri; pa_arr := pa_arr st |}
+  | SegSOF n p y x comps =>
+      if n =? 10 then Some {| pa_sof := Some (p, y, x, comps); pa_l := pa_l st; pa_u := pa_u st; pa_k := pa_k st;
+                              pa_ri := pa_ri st; pa_arr := repeat (PM.empty Z) (length comps) |}
+      else None
+  | SegSOS sc ss se ah al first rest =>
+      match pa_setup st sc with
+      | None => None
+      | Some cx =>
+        match padec_intervals ss se ah al (px_conds cx) (px_ws cx) (length sc) (px_ivs cx) (first :: map snd rest) (px_arrs cx) with
+        | None => None
+        | Some arrs' => Some (pa_store st (px_info cx) arrs')
+        end
+      end
+  | _ => Some st
+  end.
+
+Fixpoint pa_walk (st : pastate) (segs : list (nat * segment)) : option pastate :=
+  match segs with
+  | [] => Some st
+  | (_, s) :: t => match pa_step st s with Some st' => pa_walk st' t | None => None end
+  end.
+
+Definition coefs_of_maps (y x : Z) (fc : list fcomp) (arr : list (PM.t Z)) : list comp_coefs :=
+  let g := geom_of y x fc in
+  map (fun ic : nat * fcomp =>
+         let '(i, (_, h, v, _)) := ic in
+         let m := nth i arr (PM.empty Z) in let w := mcu_cols g * h in
+         (comp_wb g h, comp_hb g v,
+          flat_map (fun r => map (fun c => to_natural (map (fun k => pget m w r c k) (zrange 64)))
+                                 (zrange (comp_wb g h))) (zrange (comp_hb g v))))
+      (combine (seq 0 (length fc)) fc).
+
+Definition t81_decode_arith_prog (s : stream) : option (list comp_coefs) :=
+  match pa_walk pa0 (st_segs s) with
+  | None => None
+  | Some st => match pa_sof st with Some (p, y, x, fc) => Some (coefs_of_maps y x fc (pa_arr st)) | None => None end
+  end.
+
+(* ---- writer: the image gives every component's blocks over the MCU-padded array
+   (width mcu_cols * H, height mcu_rows * V) whatever the scan; items: IMisc, IFrame (n = 10),
+   and scans with their spectral selection / successive approximation parameters *)
+Inductive paitem :=
+| PAMisc (fill : nat) (s : segment)
+| PAFrame (fill : nat)
+| PAScan (fill : nat) (sc : list scomp) (ss se ah al : Z) (rst_fill : list nat).
+
+Fixpoint paenc_blocks (ss se ah al : Z) (cs : list acond) (blocks : list (nat * list Z)) (preds ctxs : list Z) : list (Z * bool) :=
+  match blocks with
+  | [] => []
+  | (j, zz) :: t =>
+    let '(ds, p', c') := penc_block ss se ah al (acond_at cs j) (nth j preds 0) (nth j ctxs 0) zz in
+    ds ++ paenc_blocks ss se ah al cs t (set_nth j p' preds) (set_nth j c' ctxs)
+  end.
+
+Definition paw_step (im : image) (st : pastate) (it : paitem) : option (pastate * (nat * segment)) :=
+  match it with
+  | PAMisc f s =>
+      match s with
+      | SegSOF _ _ _ _ _ | SegSOS _ _ _ _ _ _ _ => None
+      | _ => match pa_step st s with Some st' => Some (st', (f, s)) | None => None end
+      end
+  | PAFrame f =>
+      let s := SegSOF 10 (im_p im) (im_y im) (im_x im) (im_comps im) in
+      match pa_step st s with Some st' => Some (st', (f, s)) | None => None end
+  | PAScan f sc ss se ah al rf =>
+      match pa_setup st sc with
+      | None => None
+      | Some cx =>
+        let blk (p : nat * Z * Z) :=
+          let '(j, r, c) := p in
+          let '(i, h, _, _, _) := nth j (px_info cx) (O, 0, 0, 0, 0) in
+          (j, to_zigzag (nth (Z.to_nat (r * (mcu_cols (px_g cx) * h) + c)) (nth i (im_coefs im) []) [])) in
+        match map (fun pos => qm_encode_all (paenc_blocks ss se ah al (px_conds cx) (map blk pos)
+                                                 (repeat 0 (length sc)) (repeat 0 (length sc)))) (px_ivs cx) with
+        | d0 :: ds => Some (st, (f, SegSOS sc ss se ah al d0 (combine (map (fun k => nth k rf O) (seq 0 (length ds))) ds)))
+        | [] => None
+        end
+      end
+  end.
+
+Fixpoint paw_walk (im : image) (st : pastate) (its : list paitem) : option (list (nat * segment)) :=
+  match its with
+  | [] => Some []
+  | it :: t =>
+    match paw_step im st it with
+    | None => None
+    | Some (st', fs) => match paw_walk im st' t with Some l => Some (fs :: l) | None => None end
+    end
+  end.
+
+Definition t81_emit_arith_prog (its : list paitem) (eoi_fill : nat) (im : image) : option (list Z) :=
+  match paw_walk im pa0 its with
+  | Some segs => Some (emit_stream {| st_segs := segs; st_eoi_fill := eoi_fill |})
+  | None => None
+  end.
